@@ -62,17 +62,20 @@ func rulesC10(c *Ctx) {
 		idKey := c.P.LookupType(pM, "idContextKey")
 		c.Need(idKey != nil, "idContextKey")
 		isValid := c.FnObj(pJ, "ID", "IsValid")
+		// the three locals by role: s = receiver of the deliverLocked call, responseTo = its response-id argument,
+		// relatedRequest = the other local of type ID declared without a value
 		var sVar, relVar, respVar types.Object
+		deliver := c.FnObj(pM, "stream", "deliverLocked")
+		for _, dc := range wr.CallsIn(wr.Body, deliver, false) {
+			if sel, ok := ast.Unparen(dc.Fun).(*ast.SelectorExpr); ok && len(dc.Args) >= 3 {
+				sVar, respVar = wr.ObjOf(sel.X), wr.ObjOf(dc.Args[2])
+			}
+		}
 		for _, p := range Writes(wr.Body, false) {
-			if vs, ok := p.Stmt.(*ast.ValueSpec); ok {
+			if vs, ok := p.Stmt.(*ast.ValueSpec); ok && len(vs.Values) == 0 {
 				for _, nm := range vs.Names {
-					switch nm.Name {
-					case "s":
-						sVar = wr.Info().Defs[nm]
-					case "relatedRequest":
-						relVar = wr.Info().Defs[nm]
-					case "responseTo":
-						respVar = wr.Info().Defs[nm]
+					if o := wr.Info().Defs[nm]; o != nil && o != respVar && isNamedType(o.Type(), modPath+"/"+pJ, "ID") {
+						relVar = o
 					}
 				}
 			}
@@ -144,7 +147,7 @@ func rulesC10(c *Ctx) {
 				for _, w2 := range Writes(wr.Body, false) {
 					if wr.ObjOf(w2.LHS) == v && w2.RHS != nil {
 						if ce, ok := ast.Unparen(w2.RHS).(*ast.CallExpr); ok && len(ce.Args) == 1 && namedOf(wr.TypeOf(ce.Args[0])) == idKey {
-							if s, ok := ast.Unparen(ce.Fun).(*ast.SelectorExpr); ok && s.Sel.Name == "Value" && wr.ObjOf(s.X) == types.Object(wr.Param("ctx")) {
+							if s, ok := ast.Unparen(ce.Fun).(*ast.SelectorExpr); ok && s.Sel.Name == "Value" && wr.ObjOf(s.X) == types.Object(wr.CtxParam()) {
 								okV = true
 							}
 						}
@@ -186,7 +189,7 @@ func rulesC10(c *Ctx) {
 				if len(call.Args) == 3 && namedOf(f.TypeOf(call.Args[1])) == idKey {
 					n++
 					sel, _ := ast.Unparen(call.Args[2]).(*ast.SelectorExpr)
-					ok := f.Name() == "(*ServerSession).handle" && sel != nil && f.IsField(sel, c.Field(pJ, "Request", "ID")) && f.ObjOf(sel.X) == types.Object(f.Param("req"))
+					ok := f.Name() == "(*ServerSession).handle" && sel != nil && f.IsField(sel, c.Field(pJ, "Request", "ID")) && f.ObjOf(sel.X) == types.Object(f.ParamOfNamed(pJ, "Request"))
 					c.Check(ok, "idContextKey-set:"+f.Name(), f, call, "the routing id is put into handler contexts only by ServerSession.handle, from the request being handled")
 				}
 			}
@@ -307,7 +310,7 @@ func rulesC10(c *Ctx) {
 					root := f.Root()
 					recv := root.Recv()
 					okRecv := recv != nil && f.ObjOf(sel.X) == types.Object(recv)
-					okLocalConn := f.baseIsLocalAlloc(sel) || (namedOf(f.TypeOf(sel.X)) == c.P.LookupType(pM, "streamableServerConn") && exprStr(sel.X) == "t.connection")
+					okLocalConn := f.baseIsLocalAlloc(sel) || (namedOf(f.TypeOf(sel.X)) == c.P.LookupType(pM, "streamableServerConn") && f.FieldPath(sel.X) == "StreamableServerTransport.connection")
 					c.Check(okRecv || okLocalConn, "routing-table-owner:"+f.Name()+":"+fld.Name(), f, sel, "%s is reached only through the connection's own receiver (or the transport constructing it)", fld.Name())
 				}
 			}
